@@ -53,6 +53,10 @@ def show(x):
         return '%s(%s)' % (k[3:], show(x[1]))
     if k == 'zero':
         return '0'
+    if k == 'lead':
+        return '%s[:, :%s]' % (show(x[1]), x[2])
+    if k == 'field':
+        return x[1]
     return '?'
 
 
@@ -115,6 +119,8 @@ class Walker:
             if b is None:
                 return a
             return {v: (a[v] if a.get(v) == b.get(v) else ('unknown', 'join')) for v in set(a) | set(b)}
+        if k == 'ForStmt' and self.copy_loop(s0, env):
+            return env
         if k in ('ForStmt', 'WhileStmt', 'DoStmt'):
             # loops writing matrices by cells: everything they store into becomes unknown
             for x in walk(s0):
@@ -134,6 +140,64 @@ class Walker:
         if k == 'CallExpr':
             return self.call(s0, env)
         return env
+
+    def copy_loop(self, loop, env):
+        """loops that only copy cells:  A[i][j] = B[i][j]  (leading block),  A[j][i] = B[i][j]  (its transpose),  A[j][0] = v[j],  v[i] = A[i][0]"""
+        from .kerneldef import Extractor, Unsupported
+        from .sym import Poly
+        ex = Extractor(self.prog, self.f)
+        ex.locals_ok = True
+        ex.acc = {}
+        try:
+            ex.stmt(loop, [], {}, {})
+        except Unsupported:
+            return False
+        if not ex.contribs:
+            return False
+        new = {}
+        for c in ex.contribs:
+            if c.mode != '=' or len(c.term.atoms()) != 1 or c.term.d != Poly.const(1):
+                return False
+            at = list(c.term.atoms())[0]
+            if c.term.n != Poly.atom(at) or not at.endswith(']'):
+                return False
+            src, rest = at.split('[', 1)
+            sidx = rest[:-1].split('][')
+            oidx = [str(x) for x in c.out[1]]
+            out = c.out[0]
+            if not out.startswith('L:') and not out.startswith('$'):
+                return False
+            oname = out[2:] if out.startswith('L:') else self.pnames[int(out[1:].split('->')[0])] if '->' not in out else None
+            if oname is None:
+                return False
+            # source value
+            if src.startswith('L:'):
+                sval = env.get(src[2:], ('unknown', src))
+            elif src.startswith('$') and '->' in src:
+                sval = ('field', src)
+            elif src.startswith('$'):
+                sval = ('p', int(src[1:]), self.pnames[int(src[1:])])
+            else:
+                sval = ('field', src)
+            lv = {l[0]: l for l in c.loops}
+            if any(str(l[1]) != '0' or l[3] != 1 for l in c.loops):
+                return False
+
+            def bound(v):
+                return str(lv[v][2]) if v in lv else None
+            if len(oidx) == 2 and len(sidx) == 2 and oidx == sidx and all(v in lv for v in oidx):
+                val = ('lead', sval, bound(oidx[1]))                      # same rows, leading columns
+            elif len(oidx) == 2 and len(sidx) == 2 and oidx == sidx[::-1] and all(v in lv for v in oidx):
+                val = T(('lead', sval, bound(sidx[1])))                   # transpose of the leading columns
+            elif len(oidx) == 2 and oidx[1] == '0' and len(sidx) == 1 and sidx[0] == oidx[0]:
+                val = ('lead', sval, bound(oidx[0]))                      # column vector of the leading entries
+            elif len(oidx) == 1 and len(sidx) == 2 and sidx[1] == '0' and sidx[0] == oidx[0]:
+                val = sval                                                # the single column of an n x 1 matrix
+            else:
+                return False
+            new[oname] = val
+        env.update(new)
+        return True
 
     def call(self, n, env):
         cn = callee_name(n)
@@ -184,7 +248,7 @@ class Walker:
         return env
 
 
-def run(chk, prog):
+def run(chk, prog, names=('MatrixMoorePenrosePseudoinverse', 'OrdinaryLeastSquares', 'MatrixPseudoinversion')):
     Rd = chk.rule('MX.definition', 'along every path to a return the output of the composed routine is its defining matrix expression '
                   '(kernel calls read as transpose / product / inverse / SVD factors)')
     Rs = chk.rule('MX.symmetric-arg', 'every call of MatrixPseudoinversion (U S^-1 V\') in the solver units passes a Gram matrix')
@@ -198,11 +262,17 @@ def run(chk, prog):
         if f.name == 'OrdinaryLeastSquares':
             X, y = P(0, pn[0]), P(1, pn[1])
             return 2, ('mul', (('inv', ('mul', (T(X), X))), T(X), y)), "(X'X)^-1 X'y"
+        if f.name == 'PLSBetasCoeff':
+            n_ = pn[1]
+            W = ('lead', ('field', '$0->xweights'), '$1')
+            Pm = ('lead', ('field', '$0->xloadings'), '$1')
+            b = ('lead', ('field', '$0->b'), '$1')
+            return 2, ('mul', (W, ('inv', ('mul', (T(Pm), W))), b)), "W (P'W)^-1 b over the first nlv latent variables"
         if f.name == 'MatrixPseudoinversion':
             M = P(0, pn[0])
             return 1, ('mul', (('svdU', M), ('inv', ('svdS', M)), ('svdVT', M))), "U S^-1 V' with (U, S, V') = SVD(M)"
         return None
-    for name in ('MatrixMoorePenrosePseudoinverse', 'OrdinaryLeastSquares', 'MatrixPseudoinversion'):
+    for name in names:
         f = prog.funcs.get(name)
         if f is None or f.body is None:
             chk.broke('%s not found' % name)
